@@ -21,6 +21,10 @@ static void pr_pls(const char *pre, PLSMODEL *m)
   PM(xscores) PM(xloadings) PM(xweights) PM(yscores) PM(yloadings) PV(b) PV(xvarexp) PV(xcolaverage) PV(xcolscaling) PV(ycolaverage) PV(ycolscaling)
   PM(recalculated_y) PM(recalc_residuals) PM(predicted_y) PM(pred_residuals) PM(r2y_recalculated) PM(r2y_validation) PM(q2y) PM(sdep) PM(sdec) PM(bias)
   PM(yscrambling)
+  PM(roc_auc_recalculated) PM(roc_auc_validation) PM(precision_recall_ap_recalculated) PM(precision_recall_ap_validation)
+#define PT(f) snprintf(b, sizeof b, "%s." #f, pre); pr_tensor(b, m->f);
+  PT(roc_recalculated) PT(roc_validation) PT(precision_recall_recalculated) PT(precision_recall_validation)
+#undef PT
 #undef PM
 #undef PV
 }
@@ -32,8 +36,21 @@ static void fillm(matrix *m, size_t r, size_t c, double base)
   size_t i, j; ResizeMatrix(m, r, c);
   for(i = 0; i < r; i++) for(j = 0; j < c; j++) m->data[i][j] = base + 0.125*(double)i + 0.0078125*(double)j;
 }
+static void fillt(tensor *t, size_t o, size_t r, size_t c, double base)
+{
+  size_t k, i, j;
+  for(k = 0; k < o; k++){
+    AddTensorMatrix(t, r+k, c);
+    for(i = 0; i < r+k; i++) for(j = 0; j < c; j++) t->m[t->order-1]->data[i][j] = base + (double)k + 0.125*(double)i + 0.0078125*(double)j;
+  }
+}
 static void fill_pls_stats(PLSMODEL *m, size_t k)
 {
+  /* the discriminant-analysis tables and curves (filled by PLSDiscriminantAnalysisStatistics in the library) */
+  fillm(m->roc_auc_recalculated, 2+k, 1, 0.9); fillm(m->roc_auc_validation, 2+k, 1, 0.8);
+  fillm(m->precision_recall_ap_recalculated, 2+k, 1, 0.7); fillm(m->precision_recall_ap_validation, 2+k, 1, 0.6);
+  fillt(m->roc_recalculated, 1+k, 3, 2, 100.0); fillt(m->roc_validation, 1+k, 4, 2, 200.0);
+  fillt(m->precision_recall_recalculated, 1+k, 5, 2, 300.0); fillt(m->precision_recall_validation, 1+k, 6, 2, 400.0);
   fillm(m->predicted_y, 3+k, 2, 10.0); fillm(m->pred_residuals, 3+k, 2, -20.0);
   fillm(m->r2y_recalculated, 2+k, 1, 0.5); fillm(m->r2y_validation, 2+k, 1, 0.25); fillm(m->q2y, 2+k, 2, 0.75);
   fillm(m->sdep, 2+k, 1, 538.0); fillm(m->sdec, 2+k, 1, 441.0); fillm(m->bias, 1+k, 1, 3.0); fillm(m->yscrambling, 4+k, 3, 7.0);
